@@ -13,7 +13,7 @@ for d in $(ls -d /verif/seeded/C??-? | sort); do
   id=$(basename $d); prop=${id%-*}
   git apply $d/patch.diff || { echo "$id: patch does not apply"; continue; }
   /verif/bin/mowcheck -repo /repo -verif /verif -prop $prop -tier quick -evidence $TMP/$id.json > $TMP/$id.out 2>&1; rc=$?
-  git checkout -q -- .
+  git checkout -q -- .; git clean -fdq
   rules=$(grep -o 'rule=[A-Z]*-[0-9]*' $TMP/$id.out | grep -v KNOWN | sort -u | sed 's/rule=//' | tr '\n' ' ')
   rules=$(grep -A1 '^VIOLATION' $TMP/$id.out | grep -o 'rule=[A-Z]*-[0-9]*' | sort -u | sed 's/rule=//' | tr '\n' ' ')
   echo "| $id | $prop | $rc | $rules |" >> $OUT
